@@ -351,6 +351,25 @@ func (c *Cluster) Failover(m, r int, kill bool) {
 	}
 }
 
+// Reassign makes replica r follow master m (the replica set of its former master shrinks).
+func (c *Cluster) Reassign(r, m int) {
+	c.mu.Lock()
+	defer c.mu.Unlock()
+	rep, nm := c.Nodes[r], c.Nodes[m]
+	if rep.master == nil || nm.master != nil {
+		return
+	}
+	old := rep.master
+	for i, x := range old.replicas {
+		if x == rep {
+			old.replicas = append(old.replicas[:i:i], old.replicas[i+1:]...)
+			break
+		}
+	}
+	rep.master = nm
+	nm.replicas = append(nm.replicas, rep)
+}
+
 // nodesText renders CLUSTER NODES as seen from node self.
 func (c *Cluster) nodesText(self *Node) string {
 	var b strings.Builder
